@@ -451,6 +451,9 @@ impl Expression for ExpressionAssignUndefined {
             match left_result {
                 Err(err) => Err(err),
                 Ok(left_value) => {
+                    if left_value.is_readonly() {
+                        return Err(format!("Can't set read-only {left_value}"));
+                    }
                     // Copy the value: both sides may be the same object.
                     let right_data = right_result.lock().unwrap().clone();
                     right_data.clone_into(left_value.lock().unwrap().deref_mut());
